@@ -41,6 +41,16 @@ type Sel struct {
 	Raw string `json:"raw"` // as written in the BUILD file
 }
 
+// Ign is one Ignore entry: "dir" (raw ends in "/": everything beneath the
+// directory), "glob" (dir/*ext) or "lit" (one file).
+type Ign struct {
+	K    string `json:"k"`
+	Dir  string `json:"dir,omitempty"`  // resolved directory
+	Ext  string `json:"ext,omitempty"`  // glob: suffix after '*'
+	Name string `json:"name,omitempty"` // lit: resolved file name
+	Raw  string `json:"raw"`
+}
+
 type Rule struct {
 	K       string   `json:"k"` // "file_set" | "bundle"
 	Dir     string   `json:"dir"`
@@ -48,6 +58,7 @@ type Rule struct {
 	Name    string   `json:"name"`
 	Files   []string `json:"files,omitempty"` // resolved
 	Sels    []Sel    `json:"sels,omitempty"`
+	Igns    []Ign    `json:"igns,omitempty"`
 	Include []string `json:"include,omitempty"`
 	Deps    []string `json:"deps,omitempty"` // resolved
 }
@@ -85,7 +96,7 @@ type CleanObs struct {
 }
 
 type Op struct {
-	K string `json:"k"` // "src" | "rules" | "tamper" | "build"
+	K string `json:"k"` // "src" | "rules" | "tamper" | "touchout" | "advance" | "build"
 
 	Name    string `json:"name,omitempty"`
 	Stat    *Stat  `json:"stat,omitempty"` // nil: delete
@@ -99,6 +110,9 @@ type Op struct {
 	List    []Entry `json:"list,omitempty"`    // overwrite with a well-formed list
 
 	Targets []string `json:"targets,omitempty"`
+	Always  bool     `json:"always,omitempty"` // Config.AlwaysRebuild
+
+	Dt int64 `json:"dt,omitempty"` // advance: nanoseconds
 
 	Obs *BuildObs `json:"obs,omitempty"`
 }
@@ -168,6 +182,13 @@ func ruleText(r *Rule) string {
 				ss = append(ss, s.Raw)
 			}
 			fmt.Fprintf(&b, "  Select: %s,\n", qlist(ss))
+		}
+		if len(r.Igns) > 0 {
+			var is []string
+			for _, i := range r.Igns {
+				is = append(is, i.Raw)
+			}
+			fmt.Fprintf(&b, "  Ignore: %s,\n", qlist(is))
 		}
 		if len(r.Include) > 0 {
 			fmt.Fprintf(&b, "  Include: %s,\n", qlist(r.Include))
@@ -301,10 +322,17 @@ func snapshotOut(root string) []OutFile {
 
 var logBuf bytes.Buffer
 
-func realBuild(root string, targets []string) (ok bool, errText string, exec []string) {
+// cacheNow is the cache's clock (the verif hook VerifCacheClock reads it).
+var cacheNow = time.Unix(1700000000, 0)
+
+// chmodCount numbers the output chmods of a history.
+var chmodCount uint32
+
+func realBuild(root string, targets []string, always bool) (ok bool, errText string, exec []string) {
 	logBuf.Reset()
 	exec = []string{}
-	b, err := caco3.NewBuilder(root, &caco3.Config{Root: root})
+	caco3.VerifCacheClock = func() time.Time { return cacheNow }
+	b, err := caco3.NewBuilder(root, &caco3.Config{Root: root, AlwaysRebuild: always})
 	if err != nil {
 		return false, "new builder: " + err.Error(), exec
 	}
@@ -369,6 +397,8 @@ func entriesJSON(es []Entry) []byte {
 }
 
 func runCase(c *Case, withClean bool) {
+	cacheNow = time.Unix(1700000000, 0)
+	chmodCount = 0
 	root, err := os.MkdirTemp(scratch, "c10-")
 	if err != nil {
 		fatal("scratch", err)
@@ -427,10 +457,28 @@ func runCase(c *Case, withClean bool) {
 				t := after.ModTime().Add(time.Microsecond)
 				os.Chtimes(f, t, t)
 			}
+		case "touchout":
+			// chmod only: same bytes, same mtime, another mode
+			f := filepath.Join(root, "out", filepath.FromSlash(op.Out))
+			if info, err := os.Lstat(f); err == nil {
+				// a mode this history has not used yet (owner rw stays): going
+				// back to a recorded mode would not be a new stat
+				chmodCount++
+				m := fs.FileMode(0o600 + (chmodCount*7)%64)
+				if m == info.Mode().Perm() || m == 0o644 {
+					chmodCount++
+					m = fs.FileMode(0o600 + (chmodCount*7)%64)
+				}
+				if err := os.Chmod(f, m); err != nil {
+					fatal("chmod out", err)
+				}
+			}
+		case "advance":
+			cacheNow = cacheNow.Add(time.Duration(op.Dt))
 		case "build":
 			o := &BuildObs{}
 			waitTick(root)
-			o.Ok, o.Err, o.Exec = realBuild(root, op.Targets)
+			o.Ok, o.Err, o.Exec = realBuild(root, op.Targets, op.Always)
 			o.Outs = snapshotOut(root)
 			if withClean {
 				// implementation-only oracle: a from-scratch build of a copy
@@ -442,7 +490,7 @@ func runCase(c *Case, withClean bool) {
 					fatal("copy", err)
 				}
 				co := &CleanObs{}
-				co.Ok, co.Err, co.Exec = realBuild(croot, op.Targets)
+				co.Ok, co.Err, co.Exec = realBuild(croot, op.Targets, false)
 				co.Outs = snapshotOut(croot)
 				os.RemoveAll(croot)
 				o.Clean = co
